@@ -142,9 +142,15 @@ def run_tlc(tla, cfg):
         tlc = shutil.which('tlc')
         if not tlc:
             raise RuntimeError('tlc not on PATH')
+        def unlimit():
+            # the checks run under a soft address-space limit; the JVM needs to reserve more than that
+            import resource
+            hard = resource.getrlimit(resource.RLIMIT_AS)[1]
+            resource.setrlimit(resource.RLIMIT_AS, (hard, hard))
+
         r = subprocess.run([tlc, '-workers', '1', '-noGenerateSpecTE', '-metadir', os.path.join(d, 'meta'),
                             '-dump', 'dot,actionlabels', os.path.join(d, 'graph.dot'), '-deadlock', 'PType.tla'],
-                           cwd=d, capture_output=True, text=True, timeout=600)
+                           cwd=d, capture_output=True, text=True, timeout=600, preexec_fn=unlimit)
         out = r.stdout + r.stderr
         if 'Model checking completed. No error has been found.' not in out:
             raise RuntimeError('TLC reported an error in the documented protocol model:\n' + out[-3000:])
